@@ -707,6 +707,18 @@ def run_time(m, var, acc):
             valid_ts(acc, "delete_older", t2, case)
         except Exception as e:  # noqa
             acc.fail("delete_older:raised", f"raised {e!r}", case)
+        # ---- delete_older on the same rows in REVERSE edge order (documented: no sorting requirements) ----
+        if len(Mm["edges"]) >= 2:
+            case_r = dict(base_case, op="delete_older", time=t, edges="reversed")
+            Mr = dict(Mm, edges=list(reversed(Mm["edges"])))
+            t3 = tcm.copy()
+            t3.drop_index()
+            t3.edges.replace_with(tcm.edges[::-1])
+            try:
+                t3.delete_older(t)
+                report(acc, "delete_older:unsorted_edges", snap(t3), R.delete_older(Mr, t), case_r)
+            except Exception as e:  # noqa
+                acc.fail("delete_older:unsorted_edges:raised", f"raised {e!r}", case_r)
         # ---- split_edges ----
         for ai, kw in enumerate(NEW_ARGS):
             fl, pop, md = _resolved(kw)
